@@ -87,6 +87,24 @@ type Case struct {
 	DialTimeout bool   `json:"dial_timeout,omitempty"`
 	TwinSize    int    `json:"twin_size,omitempty"`
 	TwinSeed    uint64 `json:"twin_seed,omitempty"`
+	// PreludeLocal: which of the ordinary exchanges before the CONNECT the proxy answers itself,
+	// without a round trip (a request modifier calls Context.SkipRoundTrip, as martian's API host,
+	// static file serving or an authentication refusal do; a response modifier supplies the body):
+	// "" (none: all are forwarded to an origin), "all", "first", "last".
+	PreludeLocal string `json:"prelude_local,omitempty"`
+	// DialDelayMs: the dial function (towards the target, or towards the downstream proxy) returns
+	// only after this long - longer than TimeoutMs in the generated cases: a far or slow target.
+	DialDelayMs int `json:"dial_delay_ms,omitempty"`
+	// DownKeepOpen (downstream route, unreachable target): after its refusal ("502", Content-Length: 0)
+	// the downstream proxy keeps its connection open for a further request, as HTTP/1.1 proxies do.
+	DownKeepOpen bool `json:"down_keep_open,omitempty"`
+	// TargetFirst: the target speaks first (a banner protocol): it writes the first 16 bytes of
+	// its stream as soon as it has accepted the connection, before the client has seen the 200.
+	TargetFirst bool `json:"target_first,omitempty"`
+	// IdleMs: once the tunnel is set up nothing is sent either way for this long - longer than
+	// TimeoutMs in the generated cases, so the proxy may end the tunnel. Then the target sends a
+	// byte and the client, if that byte reaches it, answers with one.
+	IdleMs int `json:"idle_ms,omitempty"`
 }
 
 // runTwin drives the second tunnel and reports what it saw.
@@ -269,7 +287,7 @@ func halfClose(c net.Conn) {
 }
 
 // downstream is a minimal well-behaved CONNECT proxy.
-func downstream(l net.Listener, targetAddr string, coalesce int, extraHead string, routes ...func(host string) string) {
+func downstream(l net.Listener, targetAddr string, coalesce int, extraHead string, refuse, keepOpen bool, routes ...func(host string) string) {
 	for {
 		c, err := l.Accept()
 		if err != nil {
@@ -291,6 +309,15 @@ func downstream(l net.Listener, targetAddr string, coalesce int, extraHead strin
 			co := coalesce
 			if to != targetAddr {
 				co = 0
+			}
+			if refuse && to == targetAddr {
+				// the target cannot be reached from here: a complete answer, and the
+				// connection stays usable for the next request if keepOpen
+				c.Write([]byte("HTTP/1.1 502 Bad Gateway\r\nContent-Length: 0\r\n\r\n"))
+				if keepOpen {
+					io.Copy(io.Discard, br) // until the peer closes
+				}
+				return
 			}
 			t, err := net.DialTimeout("tcp", to, 5*time.Second)
 			if err != nil {
@@ -331,6 +358,14 @@ func shapeOf(c Case) string {
 	return s
 }
 
+// confirmed holds the signatures of expired waits that a re-validation with the
+// threefold bound has reproduced in this process: a further occurrence of one of
+// them is reported as it is (an open finding would otherwise cost 4T per case).
+var confirmed = struct {
+	sync.Mutex
+	sig map[string]bool
+}{sig: map[string]bool{}}
+
 func run(c Case) kit.Verdict {
 	v := runOnce(c, kit.T())
 	for _, f := range v {
@@ -338,11 +373,22 @@ func run(c Case) kit.Verdict {
 			break
 		}
 		if strings.Contains(f.Sig, "timeout") || strings.Contains(f.Sig, "never") || strings.Contains(f.Sig, "not-") {
+			confirmed.Lock()
+			seen := confirmed.sig[f.Sig]
+			confirmed.Unlock()
+			if seen {
+				continue
+			}
 			v2 := runOnce(c, 3*kit.T())
 			if len(v2) == 0 {
 				kit.Inconclusive("tunnel")
 				return nil
 			}
+			confirmed.Lock()
+			for _, f2 := range v2 {
+				confirmed.sig[f2.Sig] = true
+			}
+			confirmed.Unlock()
 			return v2
 		}
 	}
@@ -358,11 +404,14 @@ func runOnce(c Case, T time.Duration) (v kit.Verdict) {
 	}
 	defer tl.Close()
 	accepted := make(chan net.Conn, 4)
-	targetEarly := 0
-	if c.DownCoalesce && c.Route == "downstream" {
+	targetEarly, downCoalesce := 0, 0
+	if (c.DownCoalesce && c.Route == "downstream") || c.TargetFirst {
 		targetEarly = 16
 		if targetEarly > len(t2c) {
 			targetEarly = len(t2c)
+		}
+		if c.DownCoalesce && c.Route == "downstream" {
+			downCoalesce = targetEarly
 		}
 	}
 	go func() {
@@ -391,7 +440,7 @@ func runOnce(c Case, T time.Duration) (v kit.Verdict) {
 		}
 		defer twinL.Close()
 	}
-	go downstream(dl, tl.Addr().String(), targetEarly, map[string]string{"te-chunked": "Transfer-Encoding: chunked\r\n", "content-length": "Content-Length: 7\r\n"}[c.DownHead], func(host string) string {
+	go downstream(dl, tl.Addr().String(), downCoalesce, map[string]string{"te-chunked": "Transfer-Encoding: chunked\r\n", "content-length": "Content-Length: 7\r\n"}[c.DownHead], c.Unreachable && c.Route == "downstream", c.DownKeepOpen, func(host string) string {
 		if twinL != nil && strings.HasPrefix(host, "twin.test") {
 			return twinL.Addr().String()
 		}
@@ -399,7 +448,7 @@ func runOnce(c Case, T time.Duration) (v kit.Verdict) {
 	})
 
 	var preludeOrigin *netkit.Origin
-	if c.Prelude > 0 {
+	if c.Prelude > 0 && c.PreludeLocal != "all" {
 		preludeOrigin = netkit.NewOrigin(func(r *netkit.ReqLog) netkit.Script {
 			body := "PRELUDE-" + r.Header.Get("X-Verif-Id")
 			return netkit.Script{Raw: []byte(fmt.Sprintf("HTTP/1.1 200 OK\r\nContent-Length: %d\r\n\r\n%s", len(body), body)), CutAt: -1}
@@ -427,18 +476,20 @@ func runOnce(c Case, T time.Duration) (v kit.Verdict) {
 	if c.TimeoutMs > 0 {
 		p.SetTimeout(time.Duration(c.TimeoutMs) * time.Millisecond)
 	}
-	p.SetDial(dialer.Dial)
+	dial := dialer.Dial
 	if c.Unreachable && c.DialTimeout {
-		p.SetDial(func(network, addr string) (net.Conn, error) {
+		inner := dial
+		dial = func(network, addr string) (net.Conn, error) {
 			if strings.HasPrefix(addr, "target.test") {
 				return nil, &net.OpError{Op: "dial", Net: network, Err: dialTimeoutErr{}}
 			}
-			return dialer.Dial(network, addr)
-		})
+			return inner(network, addr)
+		}
 	}
 	if c.OpaqueDial {
-		p.SetDial(func(network, addr string) (net.Conn, error) {
-			conn, err := dialer.Dial(network, addr)
+		inner := dial
+		dial = func(network, addr string) (net.Conn, error) {
+			conn, err := inner(network, addr)
 			if err != nil {
 				return nil, err
 			}
@@ -446,7 +497,35 @@ func runOnce(c Case, T time.Duration) (v kit.Verdict) {
 				return conn, nil // the second tunnel half-closes both ways at once
 			}
 			return opaqueConn{conn}, nil
-		})
+		}
+	}
+	if c.DialDelayMs > 0 {
+		inner := dial
+		dial = func(network, addr string) (net.Conn, error) {
+			if strings.HasPrefix(addr, "target.test") || strings.HasPrefix(addr, "downstream.test") {
+				time.Sleep(time.Duration(c.DialDelayMs) * time.Millisecond)
+			}
+			return inner(network, addr)
+		}
+	}
+	p.SetDial(dial)
+	if c.PreludeLocal != "" {
+		// requests for local.test are answered by the proxy itself: no round trip
+		p.SetRequestModifier(martian.RequestModifierFunc(func(req *http.Request) error {
+			if req.Method != "CONNECT" && req.URL.Hostname() == "local.test" {
+				martian.NewContext(req).SkipRoundTrip()
+			}
+			return nil
+		}))
+		p.SetResponseModifier(martian.ResponseModifierFunc(func(res *http.Response) error {
+			if req := res.Request; req != nil && req.Method != "CONNECT" && req.URL.Hostname() == "local.test" {
+				body := "PRELUDE-" + req.Header.Get("X-Verif-Id")
+				res.Body = io.NopCloser(strings.NewReader(body))
+				res.ContentLength = int64(len(body))
+				res.Header.Set("Content-Length", fmt.Sprint(len(body)))
+			}
+			return nil
+		}))
 	}
 	if c.Route == "downstream" {
 		p.SetDownstreamProxy(&url.URL{Scheme: "http", Host: "downstream.test:3128"})
@@ -509,7 +588,11 @@ func runOnce(c Case, T time.Duration) (v kit.Verdict) {
 	for k := 0; k < c.Prelude; k++ {
 		id := fmt.Sprintf("p%d", k)
 		conn.SetDeadline(time.Now().Add(T))
-		fmt.Fprintf(conn, "GET http://origin.test/%s HTTP/1.1\r\nHost: origin.test\r\nX-Verif-Id: %s\r\n\r\n", id, id)
+		host := "origin.test"
+		if c.PreludeLocal == "all" || (c.PreludeLocal == "first" && k == 0) || (c.PreludeLocal == "last" && k == c.Prelude-1) {
+			host = "local.test"
+		}
+		fmt.Fprintf(conn, "GET http://%s/%s HTTP/1.1\r\nHost: %s\r\nX-Verif-Id: %s\r\n\r\n", host, id, host, id)
 		pres, err := http.ReadResponse(br, &http.Request{Method: "GET"})
 		var pbody []byte
 		if err == nil {
@@ -540,7 +623,14 @@ func runOnce(c Case, T time.Duration) (v kit.Verdict) {
 	}
 	conn.SetWriteDeadline(time.Time{})
 
-	conn.SetReadDeadline(time.Now().Add(T))
+	// a dial that takes longer than the proxy's timeout: the connection's deadline, set before
+	// the CONNECT was read, has passed when the answer is due
+	slowDial := c.DialDelayMs > 0 && c.TimeoutMs > 0 && c.DialDelayMs >= c.TimeoutMs
+	connSh, unreachSh := sh, "unreachable"
+	if slowDial {
+		connSh, unreachSh = "dial-outlasts-timeout", "unreachable-dial-outlasts-timeout"
+	}
+	conn.SetReadDeadline(time.Now().Add(T + time.Duration(c.DialDelayMs)*time.Millisecond))
 	res, err := http.ReadResponse(br, &http.Request{Method: "CONNECT"})
 	if err != nil {
 		class := "no-answer-to-connect"
@@ -548,19 +638,44 @@ func runOnce(c Case, T time.Duration) (v kit.Verdict) {
 			class = "timeout-answer-to-connect"
 		}
 		if c.Unreachable && c.Route == "direct" {
-			return kit.Failf("C04/connect/unreachable/"+class, "CONNECT (%s) to an unreachable target: no 502 reached the client: %v", map[string]string{"": "HTTP/1.1"}[c.Head]+c.Head, err)
+			return kit.Failf("C04/connect/"+unreachSh+"/"+class, "CONNECT (%s) to an unreachable target (dial returns after %d ms, proxy timeout %d ms; 0 = 60 s): no 502 reached the client: %v", map[string]string{"": "HTTP/1.1"}[c.Head]+c.Head, c.DialDelayMs, c.TimeoutMs, err)
 		}
-		return kit.Failf("C04/connect/"+sh+"/"+class, "%v", err)
+		if c.Unreachable {
+			return kit.Failf("C04/connect/unreachable-via-downstream/"+class, "CONNECT refused by the downstream proxy with a 502: no answer reached the client: %v", err)
+		}
+		return kit.Failf("C04/connect/"+connSh+"/"+class, "route %s, dial returns after %d ms, proxy timeout %d ms (0 = 60 s): %v", sh, c.DialDelayMs, c.TimeoutMs, err)
 	}
 	conn.SetReadDeadline(time.Time{})
 	if c.Unreachable && c.Route == "direct" {
 		if res.StatusCode != 502 || res.Header.Get("Warning") == "" {
-			return kit.Failf("C04/connect/unreachable/not-502-with-warning", "CONNECT to an unreachable target answered %d, Warning %q", res.StatusCode, res.Header["Warning"])
+			return kit.Failf("C04/connect/"+unreachSh+"/not-502-with-warning", "CONNECT to an unreachable target answered %d, Warning %q", res.StatusCode, res.Header["Warning"])
+		}
+		return nil
+	}
+	if c.Unreachable {
+		// The downstream proxy has answered "502" with Content-Length: 0 (its own words: no Warning
+		// is demanded of it here). The 502 the client gets has to be an answer with an end: read as
+		// the client's HTTP library would, it must be complete within the liveness bound - not
+		// delimited by an end-of-stream that only the idle timeout brings.
+		ush := "unreachable-via-downstream"
+		if c.DownKeepOpen {
+			ush += "-that-stays-open"
+		}
+		if res.StatusCode != 502 {
+			return kit.Failf("C04/connect/"+ush+"/not-502", "the downstream proxy refused the CONNECT with 502, the client got %d", res.StatusCode)
+		}
+		conn.SetReadDeadline(time.Now().Add(T))
+		if _, err := io.Copy(io.Discard, res.Body); err != nil {
+			class := "answer-cut"
+			if netkit.IsTimeout(err) {
+				class = "timeout-end-of-answer"
+			}
+			return kit.Failf("C04/connect/"+ush+"/"+class, "the downstream proxy refused the CONNECT with '502, Content-Length: 0'%s; the client got 502 with Content-Length %d, Connection: close %v, and reading that answer to its end: %v (within %v; proxy idle timeout 60 s)", map[bool]string{true: " and keeps its connection open", false: " and closed"}[c.DownKeepOpen], res.ContentLength, res.Close, err, T)
 		}
 		return nil
 	}
 	if res.StatusCode != 200 {
-		return kit.Failf("C04/connect/"+sh+"/status", "CONNECT answered %d", res.StatusCode)
+		return kit.Failf("C04/connect/"+connSh+"/status", "CONNECT answered %d", res.StatusCode)
 	}
 	var tc net.Conn
 	select {
@@ -570,6 +685,62 @@ func runOnce(c Case, T time.Duration) (v kit.Verdict) {
 	}
 	defer tc.Close()
 
+	if slowDial {
+		// the proxy's idle timeout is short in these cases: one byte each way shows the
+		// tunnel is there, the phases below are left to the cases with a long timeout
+		conn.SetDeadline(time.Now().Add(T))
+		tc.SetDeadline(time.Now().Add(T))
+		if _, err := conn.Write([]byte{'>'}); err != nil {
+			return kit.Failf("C04/transfer/dial-outlasts-timeout/write-failed", "client write: %v", err)
+		}
+		// (early data, sent with the CONNECT head, comes first)
+		wantT := append(append([]byte{}, c2t[:early]...), '>')
+		gotT := make([]byte, len(wantT))
+		if _, err := io.ReadFull(tc, gotT); err != nil || !bytes.Equal(gotT, wantT) {
+			return kit.Failf("C04/transfer/dial-outlasts-timeout/timeout-client-bytes-not-delivered", "%d bytes of early data and the first byte sent by the client after the 200: %s, %v", early, kit.Diff(wantT, gotT), err)
+		}
+		back := append(append([]byte{}, t2c[:targetEarly]...), '<')
+		if _, err := tc.Write(back[targetEarly:]); err != nil {
+			return kit.Failf("C04/transfer/dial-outlasts-timeout/write-failed", "target write: %v", err)
+		}
+		got := make([]byte, len(back))
+		if _, err := io.ReadFull(br, got); err != nil || !bytes.Equal(got, back) {
+			return kit.Failf("C04/transfer/dial-outlasts-timeout/timeout-target-bytes-not-delivered", "first bytes sent by the target: client got %q, want %q, %v", got, back, err)
+		}
+		return nil
+	}
+	if c.IdleMs > 0 && c.TimeoutMs > 0 {
+		// An idle tunnel may be ended by the proxy's timeout (the statement knows that timeout);
+		// then neither direction carries anything any more. What may not happen is a tunnel that
+		// goes on delivering the target's bytes to the client and loses the client's: so only a
+		// client that has received the target's byte through the tunnel expects its own to arrive.
+		time.Sleep(time.Duration(c.IdleMs) * time.Millisecond)
+		conn.SetDeadline(time.Now().Add(T))
+		tc.SetDeadline(time.Now().Add(T))
+		if _, err := tc.Write([]byte{'<'}); err != nil {
+			return nil // cut
+		}
+		got := make([]byte, targetEarly+1)
+		if _, err := io.ReadFull(br, got); err != nil || got[targetEarly] != '<' {
+			return nil // cut (or nothing delivered: no evidence of a tunnel in service)
+		}
+		if _, err := conn.Write([]byte{'>'}); err != nil {
+			return nil
+		}
+		tc.SetDeadline(time.Now().Add(T))
+		// (early data, sent with the CONNECT head, comes first)
+		wantT := append(append([]byte{}, c2t[:early]...), '>')
+		one := make([]byte, len(wantT))
+		_, err := io.ReadFull(tc, one)
+		switch {
+		case err == nil && bytes.Equal(one, wantT):
+			return nil
+		case err == io.EOF || err == io.ErrUnexpectedEOF:
+			return kit.Failf("C04/eos/idle-past-timeout/target-sees-eof-the-client-never-sent", "route %s, proxy timeout %d ms, tunnel idle for %d ms, then the target sent a byte, the client received it through the tunnel and answered with a byte: the target reads a clean end-of-stream instead (the client has neither finished nor closed; its byte is lost without either end being told)", sh, c.TimeoutMs, c.IdleMs)
+		default:
+			return kit.Failf("C04/transfer/idle-past-timeout/timeout-client-bytes-not-delivered", "route %s, proxy timeout %d ms, tunnel idle for %d ms, then the target sent a byte, the client received it through the tunnel and answered with a byte: target got %q (want %d bytes of early data and that byte), %v", sh, c.TimeoutMs, c.IdleMs, one, early, err)
+		}
+	}
 	// the second tunnel is set up while this one is established and about to carry traffic
 	startTwin()
 	twinStarted = c.Twin
@@ -797,6 +968,13 @@ func genStream(t *rapid.T, label string, max int) Stream {
 	return s
 }
 
+// rare is true for about one case in 2^bits (rapid's integer ranges favour their
+// small values: a drawn number is spread before it is compared).
+func rare(t *rapid.T, label string, bits uint) bool {
+	d := rapid.Uint64Range(0, 1<<20).Draw(t, label)
+	return ((d+1)*0x9E3779B97F4A7C15)>>(64-bits) == 0
+}
+
 func genCase(t *rapid.T) Case {
 	max := kit.N(256<<10, 4<<20)
 	c := Case{
@@ -827,15 +1005,43 @@ func genCase(t *rapid.T) Case {
 			c.Closer = "client-half"
 		}
 	}
-	// (the harness's downstream proxy only speaks CONNECT)
-	if c.Route == "direct" && rapid.IntRange(0, 2).Draw(t, "prelude") == 0 {
+	// (the harness's downstream proxy only speaks CONNECT: on that route the exchanges
+	// before the CONNECT are all answered by the proxy itself)
+	if rapid.IntRange(0, 2).Draw(t, "prelude") == 0 {
 		c.Prelude = rapid.IntRange(1, 3).Draw(t, "prelude_n")
+		c.PreludeLocal = rapid.SampledFrom([]string{"", "", "all", "first", "last"}).Draw(t, "prelude_local")
+		if c.Route == "downstream" {
+			c.PreludeLocal = "all"
+		}
+	}
+	if c.Route == "downstream" && rapid.IntRange(0, 9).Draw(t, "unreachable_via_downstream") == 0 {
+		c.Unreachable = true
+		c.DownKeepOpen = rapid.Bool().Draw(t, "down_keep_open")
+		c.DownCoalesce, c.DownHead = false, ""
 	}
 	if !c.Unreachable && rapid.IntRange(0, 2).Draw(t, "twin") == 0 {
 		c.Twin = true
 		c.TwinWhileOpen = rapid.Bool().Draw(t, "twin_while_open")
 		c.TwinSize = rapid.SampledFrom([]int{1, 4096, 32768, 32769, 100000, 300000}).Draw(t, "twin_size")
 		c.TwinSeed = rapid.Uint64Range(1, 1<<20).Draw(t, "twin_seed")
+	}
+	c.TargetFirst = !c.Unreachable && rapid.IntRange(0, 3).Draw(t, "target_first") == 0
+	switch {
+	case c.Unreachable:
+	case rare(t, "idle_past_timeout", 6):
+		// idle for longer than the proxy's timeout, then traffic (these cases end there: see runOnce)
+		c.TimeoutMs = 400
+		c.IdleMs = 800
+		c.Twin, c.TwinWhileOpen, c.TwinSize, c.TwinSeed = false, false, 0, 0
+		return c
+	}
+	if rare(t, "slow_dial", 5) {
+		// the dial outlasts the proxy's timeout (these cases end after the first bytes
+		// each way: see runOnce)
+		c.TimeoutMs = rapid.SampledFrom([]int{500, 1000}).Draw(t, "slow_dial_timeout")
+		c.DialDelayMs = c.TimeoutMs + 250
+		c.TargetFirst = !c.Unreachable && rapid.IntRange(0, 3).Draw(t, "slow_dial_target_first") != 0
+		c.Twin, c.TwinWhileOpen, c.TwinSize, c.TwinSeed = false, false, 0, 0
 	}
 	return c
 }
@@ -897,6 +1103,24 @@ func classes(c Case) []string {
 	if c.C2T.Size > 1<<20 || c.T2C.Size > 1<<20 {
 		out = append(out, "stream>1MiB")
 	}
+	if c.IdleMs > 0 && c.TimeoutMs > 0 && c.IdleMs > c.TimeoutMs {
+		out = append(out, "idle-past-proxy-timeout-then-traffic")
+	}
+	if c.TargetFirst {
+		out = append(out, "target-speaks-first")
+	}
+	if c.PreludeLocal != "" {
+		out = append(out, "exchange-answered-by-the-proxy-itself-before-connect")
+	}
+	if c.DialDelayMs > 0 && c.TimeoutMs > 0 && c.DialDelayMs >= c.TimeoutMs {
+		out = append(out, "dial-outlasts-proxy-timeout")
+	}
+	if c.Unreachable && c.Route == "downstream" {
+		out = append(out, "unreachable-via-downstream")
+		if c.DownKeepOpen {
+			out = append(out, "downstream-stays-open-after-refusal")
+		}
+	}
 	if c.AgeMs > 0 {
 		out = append(out, "old-tunnel")
 		if c.TimeoutMs > 0 && c.AgeMs > c.TimeoutMs {
@@ -908,7 +1132,7 @@ func classes(c Case) []string {
 
 var propTunnel = &kit.Prop[Case]{
 	ID: "C04", Name: "tunnel",
-	Rule: "a blind CONNECT tunnel (direct or via a harness downstream proxy) carrying two concurrently written byte streams (0 B..256 KiB quick / 4 MiB thorough, drawn write sizes and pauses), early data coalesced with or split across the CONNECT head, and one of nine ways of ending it (half-close before/after the peer finished, full close or reset by either end, both); non-trivial = both directions non-empty, or > 64 KiB, or early data, or an explicit closer",
+	Rule: "a blind CONNECT tunnel (direct or via a harness downstream proxy) carrying two concurrently written byte streams (0 B..256 KiB quick / 4 MiB thorough, drawn write sizes and pauses), early data coalesced with or split across the CONNECT head, and one of nine ways of ending it (half-close before/after the peer finished, full close or reset by either end, both); round 6: ordinary exchanges before the CONNECT that the proxy answers itself (Context.SkipRoundTrip), targets that speak first, targets unreachable through the downstream proxy (which refuses with a complete 502 and closes or stays open), dials that outlast the proxy's timeout, tunnels idle for longer than the proxy's timeout before traffic resumes; non-trivial = both directions non-empty, or > 64 KiB, or early data, or an explicit closer",
 	Gen:  genCase, Run: run, NonTrivial: nontrivial, Classes: classes, Journal: true,
 	Gates: map[string]float64{"early-data": 0.25, "both-directions": 0.5, "route-downstream": 0.15},
 }
@@ -950,6 +1174,25 @@ func TestOldTunnel(t *testing.T) {
 		C2T: Stream{Size: 70000, Seed: 9, Writes: []int{4096}, Pause: []int{0}}, T2C: Stream{Size: 70000, Seed: 10, Writes: []int{4096}, Pause: []int{0}},
 		Early: "none", Closer: "client-half", Route: "direct", Prelude: 2, PreludePauseMs: 1000, AgeMs: 2500, TimeoutMs: 3000,
 	})
+	// the dial (of the target, of the downstream proxy) returns after the proxy's timeout
+	for _, k := range []struct {
+		route       string
+		unreachable bool
+	}{{"direct", false}, {"direct", true}, {"downstream", false}} {
+		cases = append(cases, Case{
+			C2T: Stream{Size: 10, Seed: 11, Writes: []int{4096}, Pause: []int{0}}, T2C: Stream{Size: 10, Seed: 12, Writes: []int{4096}, Pause: []int{0}},
+			Early: "none", Closer: "client-half", Route: k.route, Unreachable: k.unreachable, TimeoutMs: 1000, DialDelayMs: 1250,
+		})
+	}
+	// idle for longer than the proxy's timeout, then a byte from the target and the client's answer
+	for _, route := range []string{"direct", "downstream"} {
+		for _, shaped := range []bool{false, true} {
+			cases = append(cases, Case{
+				C2T: Stream{Size: 10, Seed: 13, Writes: []int{4096}, Pause: []int{0}}, T2C: Stream{Size: 10, Seed: 14, Writes: []int{4096}, Pause: []int{0}},
+				Early: "none", Closer: "client-half", Route: route, Shaped: shaped, TimeoutMs: 600, IdleMs: 1200,
+			})
+		}
+	}
 	verdicts := make([]kit.Verdict, len(cases))
 	var wg sync.WaitGroup
 	for i := range cases {
